@@ -439,6 +439,34 @@ def case_edge(mon, fi, which, off):
                               "returned": repr(r)})
 
 
+def case_newyear(mon, fi, years):
+    """Two queries a fifth of a day apart on either side of each New Year:
+    the finders build their period counter from a calendar year with
+    decimals, which restarts there; the result must not step back."""
+    from vpm.oracles import daycount as dc
+    planet, meth, args, kind = FINDERS[fi]
+    P = period_of(fi)
+    same = max(1.0 if planet in INNER else 2.0, 0.005 * P)
+    if years == "all":
+        years = list(range(-1999, 3999))
+    for y in years:
+        j0 = dc.jdn(y + 1, 1, 1) - 0.5
+        try:
+            mon.evals += 2
+            t1, _e1 = call_finder(fi, j0 - 0.1)
+            t2, _e2 = call_finder(fi, j0 + 0.1)
+        except Exception:
+            continue        # refusals are judged by the sweeps
+        mon.check("order.never-backwards", t2 >= t1 - same,
+                  lambda: {"planet": planet, "finder": meth,
+                           "args": list(args), "new_year_of": y + 1,
+                           "query_31_dec": j0 - 0.1, "result": t1,
+                           "query_1_jan": j0 + 0.1, "result_after": t2,
+                           "steps_back_by_days": t1 - t2})
+    mon.cls("across-new-year", (fi, len(years), years[0] if years else 0),
+            [planet, meth, len(years)])
+
+
 def case_leapday(mon, fi, year):
     """Query on 29 February of a Julian century year (a date the proleptic
     Gregorian calendar does not have)."""
@@ -450,7 +478,7 @@ def case_leapday(mon, fi, year):
     case_event(mon, fi, q)
 
 
-CASES = {"history": history.case, "sweep": case_sweep, "event": case_event, "range": case_range, "edge": case_edge,
+CASES = {"history": history.case, "sweep": case_sweep, "event": case_event, "range": case_range, "edge": case_edge, "newyear": case_newyear,
          "leapday": case_leapday}
 
 
@@ -510,6 +538,16 @@ def run(mon, spec):
                 case_event(mon, fi, q)
                 mon.cls("event-near-calendar-seam", (fi, q), [planet, meth,
                                                               lab, q])
+        # New Years: all of them in the thorough tier, a seeded sample (and
+        # the century and reform years) in the quick one
+        if full:
+            ys = list(range(-1999, 3999))
+        else:
+            ys = sorted(set([rng.randrange(-1999, 3999) for _ in range(60)]
+                            + [1582, 1583, 1599, 1600, 1899, 1900, 1999, -1,
+                               0, 3]))
+        mon.begin("newyear", [fi, ys if not full else "all"])
+        case_newyear(mon, fi, ys)
         if kind in RANGED:
             for yr in (-2000.6, -2500.0, 4000.6, 5000.0):
                 mon.begin("range", [fi, yr])
